@@ -38,7 +38,7 @@ func enumPaths(ff *core.FnFacts, limit int) ([][]*ssa.BasicBlock, bool) {
 			out = append(out, append([]*ssa.BasicBlock{}, cur...))
 		}
 		for _, s := range b.Succs {
-			if ff.IsLiveEdge(b, s) {
+			if ff.IsLiveEdge(b, s) && ff.PathFeasible(cur, s) {
 				rec(s, cur)
 			}
 		}
